@@ -147,9 +147,9 @@ def rho_cases(EoN, rng, stats):
         # from round(N*rho) infected nodes AND the requested recovered nodes: row 0 = (N-k-|R0|, k, |R0|), every row a census of N nodes
         if takes_r and sir:
             r0 = list(gc.order[:max(1, n // 3)])
-            for rho in (0.5, 0.25):
-                if int(round(n * rho)) + len(r0) > n: continue      # an inconsistent request is outside the property
-                for seed in range(6):
+            for rho in (None, 0.5, 0.25):                   # None: the default single random start node
+                if (1 if rho is None else int(round(n * rho))) + len(r0) > n: continue      # an inconsistent request is outside the property
+                for seed in range(12):
                     try:
                         pyrandom.seed(seed); np.random.seed(seed)
                         fn = getattr(E, name)
@@ -163,7 +163,11 @@ def rho_cases(EoN, rng, stats):
                             bad.append(('%s/rho+initial_recovereds/crash' % name, '%s(rho=%r, initial_recovereds=%d nodes) with random.seed(%d) raised %s: %s (neither EoNError nor a run that honours both requests)' % (name, rho, len(r0), seed, type(e).__name__, str(e)[:80]),
                                         {'sim': name, 'graph': gc.to_json(), 'rho': rho, 'r0': repr(r0), 'seed': seed}))
                         break
-                    rows = R.canon_arrays(out); k = int(round(n * rho))
+                    rows = R.canon_arrays(out); k = 1 if rho is None else int(round(n * rho))
+                    if not rows:
+                        bad.append(('%s/rho+initial_recovereds' % name, '%s(rho=%r, initial_recovereds=%d of %d nodes) with random.seed(%d) returned empty arrays (no row at tmin)' % (name, rho, len(r0), n, seed),
+                                    {'sim': name, 'graph': gc.to_json(), 'rho': rho, 'r0': repr(r0), 'seed': seed}))
+                        break
                     stats['rho+r0_runs'] = stats.get('rho+r0_runs', 0) + 1
                     wrong = [(t, c) for t, c in rows if min(c) < 0 or sum(c) != n]
                     if list(rows[0][1]) != [n - k - len(r0), k, len(r0)] or wrong:
